@@ -101,9 +101,21 @@ impl GenCfg {
         // one run in a hundred is large: thresholds on width, depth, node count, free-list length
         // (read-side properties look at every start node of the big forest: they get more of them)
         let huge = rng.chance(1, if matches!(prop, "C02" | "C09" | "C14") { 30 } else { 60 });
+        let mut steps_override: Option<usize> = None;
         if huge {
-            max_live = if rng.coin() { rng.range(80, 300) } else { rng.range(260, 450) } as usize;
+            max_live = match rng.below(8) {
+                0..=3 => rng.range(80, 300),
+                4..=6 => rng.range(260, 450),
+                // a few are giant: limits around 512 and 1024 levels / nodes
+                _ => rng.range(600, 1300),
+            } as usize;
+            if max_live >= 600 {
+                steps_override = Some(rng.range(1400, 2600) as usize);
+            }
             steps = rng.range(300, 1500) as usize;
+            if let Some(s) = steps_override {
+                steps = s;
+            }
         }
         // shape bias: random attachment alone almost never gives a node 10 children or depth 10
         let shape = match rng.below(10) {
@@ -317,6 +329,13 @@ impl GenCfg {
             w[K::Clear as usize] = w[K::Clear as usize].min(1);
             w[K::CycleSlot as usize] = w[K::CycleSlot as usize].min(1);
             w[K::RemoveSubtree as usize] = w[K::RemoveSubtree as usize].min(2);
+            if max_live >= 600 {
+                // giant forests: observations cost O(n * depth) each, a few per run are enough
+                for k in [K::ObsPrint, K::ObsTraverse, K::RestartSerde, K::ObsLookup, K::Fork, K::RestartClone, K::SaveSpare, K::CloneFrom] {
+                    w[k as usize] = w[k as usize].min(1);
+                }
+                w[K::ObsPull as usize] = w[K::ObsPull as usize].min(4);
+            }
             if shape == 2 {
                 // a deep chain is cut by every move or detach on its path: let it grow first
                 w[K::Insert as usize] /= 6;
@@ -591,7 +610,13 @@ impl Gen {
             K::CycleSlot => {
                 let x = self.pick_node(rng, m, false).unwrap();
                 let f = m.free_effective().len() as u32;
-                let n = if f <= 2 && rng.chance(self.cfg.p_boundary as u64, 100) {
+                let rec = m.recycles[m.n(x).slot - 1];
+                let n = if f == 0 && rec < 32_767 && rng.chance(self.cfg.p_boundary as u64 / 3, 100) {
+                    // stop exactly in the slot's last generation: the node stays live there, and
+                    // whatever removes it later (remove, remove_subtree, clear, a later cycle with
+                    // other slots free) is the removal that retires the slot
+                    32_767 - rec
+                } else if f <= 2 && rng.chance(self.cfg.p_boundary as u64, 100) {
                     let per_slot = match rng.below(10) {
                         0..=6 => rng.range(32_700, 32_800) as u32,
                         7 => 40_000,
@@ -637,7 +662,7 @@ impl Gen {
             K::SaveSpare => Op::SaveSpare,
             K::CloneFrom => Op::CloneFrom,
             K::ObsCapacity => Op::ObsCapacity {
-                n: *rng.pick(&[0u32, 1, 2, 31, 32, 33, 126, 127, 128, 129, 255, 256, 257, 1000, 3000]),
+                n: *rng.pick(&[0u32, 1, 2, 3, 4, 5, 31, 32, 33, 126, 127, 128, 129, 255, 256, 257, 1000, 3000, u32::MAX]),
                 ty: rng.below(6) as u8,
             },
             K::RestartSerde => Op::RestartSerde {
